@@ -228,7 +228,7 @@ func (ex *Exec) bulkCopy(st *State, in ssa.Instruction, et types.Type, dst, src 
 	j := BVBin("bvsub", mk("eidx", BV(64), Pa(a)), dst.Off)
 	srcAddr := ElemAddr(src.Base, BVBin("bvadd", src.Off, j))
 	body := Eq(mk("select", srt, newArr, a), Ite(inr, mk("select", srt, oldArr, srcAddr), mk("select", srt, oldArr, a)))
-	st.Assume(Forall([]*Term{a}, body))
+	st.Assume(ForallPat([]*Term{a}, body, mk("select", srt, newArr, a)))
 	ex.intrUsed["quantified-copy"] = true
 }
 
@@ -370,9 +370,9 @@ func (ex *Exec) bulkCopyCompositeFresh(st *State, et types.Type, dst, src *Slice
 		st.mem.arrs[srt] = newArr
 		RegisterArrayFrame(newArr, oldArr, Rg(dst.Base))
 		a := BoundVar("a$cc", SAddr)
-		st.Assume(Forall([]*Term{a}, Implies(Not(Eq(Rg(a), Rg(dst.Base))), Eq(mk("select", srt, newArr, a), mk("select", srt, oldArr, a)))))
+		st.Assume(ForallPat([]*Term{a}, Implies(Not(Eq(Rg(a), Rg(dst.Base))), Eq(mk("select", srt, newArr, a), mk("select", srt, oldArr, a))), mk("select", srt, newArr, a)))
 		for _, pr := range pairs {
-			st.Assume(Forall([]*Term{j}, Implies(BVCmp("bvult", j, n), Eq(mk("select", srt, newArr, pr[0]), mk("select", srt, oldArr, pr[1])))))
+			st.Assume(ForallPat([]*Term{j}, Implies(BVCmp("bvult", j, n), Eq(mk("select", srt, newArr, pr[0]), mk("select", srt, oldArr, pr[1]))), mk("select", srt, newArr, pr[0])))
 		}
 	}
 	ex.intrUsed["quantified-copy"] = true
